@@ -2,7 +2,8 @@
 """Re-run every kept seed (seeded/<name>/patch.diff) against the checks recorded as detecting it (meta.json check_result),
 in scratch worktrees of /repo HEAD - a regression run for the checks after they were changed.
 
-usage: tools/seeds_run.py [--jobs k] [name ...]      prints one line per (seed, check): DETECTED / MISSED / ERROR
+usage: tools/seeds_run.py [--jobs k] [--update] [name ...]   prints one line per (seed, check): DETECTED / MISSED / ERROR
+       --update: run every check listed in the seed's checks_run and rewrite check_result in its meta.json
 """
 import json
 import subprocess
@@ -20,6 +21,9 @@ def main():
         i = args.index("--jobs")
         jobs = int(args[i + 1])
         del args[i:i + 2]
+    update = "--update" in args
+    if update:
+        args.remove("--update")
     work = []
     for d in sorted((ROOT / "seeded").iterdir()):
         if args and d.name not in args:
@@ -30,6 +34,8 @@ def main():
         j = json.loads(m.read_text())
         res = j.get("check_result", "")
         det = [t.split("=")[0] for t in res.split() if t.endswith("=DETECTED")]
+        if update:
+            det = list(j.get("checks_run") or det)
         if not det:
             print(f"{d.name:8s} -      : kept as not flagged ({(j.get('note') or '')[:80]})", flush=True)
             continue
@@ -43,9 +49,17 @@ def main():
         verdict = last.split()[0]
         return f"{name:8s} {c}: {verdict}"
 
+    results = {}
     with ThreadPoolExecutor(jobs) as ex:
-        for line in ex.map(one, work):
+        for w, line in zip(work, ex.map(one, work)):
             print(line, flush=True)
+            results.setdefault(w[0], []).append((w[1], line.split(": ")[-1]))
+    if update:
+        for name, rs in results.items():
+            m = ROOT / "seeded" / name / "meta.json"
+            j = json.loads(m.read_text())
+            j["check_result"] = " ".join(f"{c}={v}" for c, v in rs) + " "
+            m.write_text(json.dumps(j, indent=1))
 
 
 if __name__ == "__main__":
